@@ -146,24 +146,28 @@ class Focused(Part):
             return dict(nontrivial=True)
         from vlib import explore
 
-        out0, ex = run_case(case, count_lines=True, sparse=dict(pre=[], blk=[]), focus=FOCUS)
-        judge(case, out0, ex)
-        n = out0.lines
-        stride = explore.plan_stride(n, ctx.tier)
+        runs, viol, n, stride = 0, [], 0, 1
+        for order in (0, 1):
+            out0, ex = run_case(case, count_lines=True, sparse=explore.base_sparse(order), focus=FOCUS)
+            judge(case, out0, ex)
+            n = out0.lines
+            stride = explore.plan_stride(n, ctx.tier, 450)
 
-        def one(line, alt):
-            out, ex = run_case(case, preempt_at=(line,), sparse=explore.line_sparse(alt), focus=FOCUS)
-            try:
-                judge(case, out, ex)
-            except Violation as v:
-                v.sched = out.sched
-                raise
-            return out.sched
+            def one(line, alt):
+                out, ex = run_case(case, preempt_at=(line,), sparse=explore.line_sparse(alt), focus=FOCUS)
+                try:
+                    judge(case, out, ex)
+                except Violation as v:
+                    v.sched = out.sched
+                    raise
+                return out.sched
 
-        runs, found, inc = explore.single_preemptions(one, n, stride, ctx.seed, max_runs=None if ctx.tier == "thorough" else 900)
-        viol = [(v, dict(case, single=list(la))) for v, la in found]
-        if inc:
-            ctx.count("inconclusive_runs", inc)
+            r, found, inc = explore.single_preemptions(one, n, stride, ctx.seed, order=order,
+                                                       max_runs=None if ctx.tier == "thorough" else 500)
+            runs += r
+            viol += [(v, dict(case, single=list(la))) for v, la in found]
+            if inc:
+                ctx.count("inconclusive_runs", inc)
         p = case["convs"][0]
         return dict(count=runs, nontrivial_count=runs, violations=viol[:3], nontrivial=True,
                     labels=[f"{p['chan']}/{p['closer']}/{p['how']}", "complete" if stride == 1 else "strided"],
